@@ -4,10 +4,10 @@
      q                        -> rv=<idle|run> obox=<n> canc=<0|1> loc=<ids> src=<ids>   (head first, '-' when empty)
      pred <final>|<log>|<trace>   history_ok on an observed history             -> t | f
      fair <fuel>              model's fair scheduler from the current state     -> conv <steps> | stuck <steps>
-   blocks are written num:id:par:ok (decimal). *)
+   blocks are written num:id:par:ok:storable (decimal). *)
 let n s = n_of_int (int_of_string s)
 let blk (s : string) : block = match String.split_on_char ':' s with
-  | [a; b; c; d] -> { num = n a; bid = n b; par = n c; okb = (d = "1") }
+  | [a; b; c; d; e] -> { num = n a; bid = n b; par = n c; okb = (d = "1"); stb = (e = "1") }
   | _ -> failwith ("block: " ^ s)
 
 let parse_event (ws : string list) : event = match ws with
@@ -16,6 +16,7 @@ let parse_event (ws : string list) : event = match ws with
   | ["fok"; h] -> FetchOk (n h)
   | ["ferr"; h] -> FetchErr (n h)
   | ["fcor"; h] -> FetchCorrupt (n h)
+  | ["funs"; h] -> FetchUnstorable (n h)
   | ["lat"] -> FetchLatest
   | ["stale"; b] -> FetchStaleHead (blk b)
   | ["laterr"] -> FetchLatestErr
